@@ -161,6 +161,12 @@ class Conn:
         self.odcid = rng.randbytes(s["odcid_len"])
         self.ccid = rng.randbytes(s["ccid_len"])       # client's source connection id
         self.scid = rng.randbytes(s["scid_len"])       # server's source connection id
+        if s.get("ccid_bytes") is not None:
+            self.ccid = s["ccid_bytes"]
+        if s.get("scid_bytes") is not None:
+            self.scid = s["scid_bytes"]
+        if s.get("odcid_bytes") is not None:
+            self.odcid = s["odcid_bytes"]
         self.secrets = {k: rng.randbytes(hl) for k in ("chs", "shs", "cap", "sap", "early")}
         cr = self.client_random.hex()
         self.keylog = [f"SERVER_HANDSHAKE_TRAFFIC_SECRET {cr} {self.secrets['shs'].hex()}",
